@@ -38,6 +38,10 @@ pub enum Act {
   /// fault: the consumer goes away - the future / stream is dropped (for a
   /// conversion that is the only way to cancel); the source carries on
   DropConsumer,
+  /// the owner of the subject prunes it (`Subject::retain`): subscribers that
+  /// report themselves finished are dropped without a terminal - a conversion
+  /// that is still waiting for the source's terminal must not be one of them
+  Retain,
 }
 
 #[derive(Clone, Debug, Serialize, Deserialize)]
@@ -124,6 +128,12 @@ impl Scenario for C14Des {
     if target != Target::Status && rng.chance(1, 6) {
       let at = rng.below(acts.len() + 1);
       acts.insert(at, Act::DropConsumer);
+    }
+    if target != Target::Status {
+      while rng.chance(1, 4) {
+        let at = rng.below(acts.len() + 1);
+        acts.insert(at, Act::Retain);
+      }
     }
     let status_take = if target == Target::Status && rng.chance(1, 3) { rng.range(1, 2) } else { 0 };
     let status_pre = if target == Target::Status && rng.chance(1, 2) { rng.range(1, 6) as u8 } else { 0 };
@@ -225,6 +235,17 @@ impl Scenario for C14Des {
             v("c14.panic", format!("`{}`: the source's next() panicked{}: {}", trace.trim(), if dropped { " after the consumer had been dropped" } else { "" }, panic_message(&*p)), &mut violation);
             break;
           }
+        }
+        Act::Retain => {
+          if matches!(tgt, Tgt::Status(..)) {
+            continue;
+          }
+          if case.threads_flavour {
+            shared_s.retain()
+          } else {
+            local.retain()
+          }
+          trace.push_str("retain ");
         }
         Act::DropConsumer => {
           if !dropped && !matches!(tgt, Tgt::Status(..)) {
@@ -599,7 +620,7 @@ pub fn check_def() -> PropertyCheck {
     id: "C14",
     scenarios: vec![Box::new(C14Des), Box::new(C14Threads)],
     runs: (300_000, 16_000_000),
-    rule: "DES case = target (to_future, to_stream, collect.to_future, complete_status - optionally with collect / last / reduce / buffer_with_count / take_last / map above it and take(k) below it) x flavour x script of next/error/complete/poll incl. events after the terminal; thread case = waiter (wait_for_end | parked to_future | parked to_stream) vs producer (0-2 items then complete/error) under a seeded schedule over lock points and the StatusFuture check/register window; non-trivial = a poll returned Pending before the terminal, an event followed the terminal, the source failed (DES) / a decision had >1 eligible thread (threads)",
+    rule: "DES case = target (to_future, to_stream, collect.to_future, complete_status - optionally with collect / last / reduce / buffer_with_count / take_last / map above it and take(k) below it) x flavour x script of next/error/complete/poll incl. events after the terminal, the consumer dropped (fault) and the subject pruned with retain(); thread case = waiter (wait_for_end | parked to_future | parked to_stream) vs producer (0-2 items then complete/error) under a seeded schedule over lock points and the StatusFuture check/register window; non-trivial = a poll returned Pending before the terminal, an event followed the terminal, the source failed (DES) / a decision had >1 eligible thread (threads)",
     assumptions: vec![
       "futures' mpsc channel and AtomicWaker operations are atomic simulator steps (only one simulated thread runs at a time)",
       "relaxed atomics in CompleteStatus are executed sequentially consistent",
